@@ -64,6 +64,9 @@
    other than VERS and WRAP agree is proved when wrap differs (C12_file_wrap_independent), not
    when version differs (each text's ~Version is described by header_read_back).
 
+   UNFOLDING LEMMAS (audit D10; proved by reflexivity, they spell a definition out and are NOT to be counted as
+   property theorems): C12_same_content_options_unfold, C12_same_formats_unfold, C12_wrap_rel_unfold,
+   C12_read_wrap_rel_unfold, C12_same_but_version_unfold.
    ORACLES: all theorems hold for arbitrary fmtv, fmt_diff, fmt_pi, fstr, fzero, numeq. *)
 From Coq Require Import List NArith ZArith Bool String.
 Import ListNotations.
